@@ -1,0 +1,195 @@
+//! Verification hooks (cargo feature `verif`; compiled out by default).
+//!
+//! Additive instrumentation used by the external verification harness: a thread-local event sink that the
+//! framework reports scheduling decisions to, and read-only snapshots of crate-private bookkeeping.
+//! Nothing in here changes the behaviour of the framework.
+
+use crate::prelude::*;
+
+use bevy::prelude::*;
+
+use std::any::TypeId;
+use std::cell::{Cell, RefCell};
+
+//-------------------------------------------------------------------------------------------------------------------
+
+/// The kind of command reported by [`VerifEvent::Apply`].
+#[derive(Debug, Copy, Clone, Eq, PartialEq)]
+pub enum VerifApplyKind
+{
+    Manual,
+    SystemEvent,
+    Resource,
+    Insertion(TypeId),
+    Mutation(TypeId),
+    Removal(TypeId),
+    EntityEvent,
+    Broadcast,
+    Despawn,
+}
+
+/// Why the system command runner gave up on a command.
+#[derive(Debug, Copy, Clone, Eq, PartialEq)]
+pub enum VerifAbortReason
+{
+    EntityGone,
+    StorageGone,
+    RootBusy,
+}
+
+/// Events reported to the sink.
+///
+/// `id` identifies one applied command (one *delivery*) from `Apply` until its `Exit`/`Discard`.
+#[derive(Debug, Copy, Clone, Eq, PartialEq)]
+pub enum VerifEvent
+{
+    /// A system command / system event / reaction command is being applied.
+    Apply{ id: u64, kind: VerifApplyKind, sys: Entity, source: Option<Entity>, data: Option<Entity> },
+    /// `syscommand_runner` was entered for delivery `id` (`replay`: it was taken from the postponed buffer).
+    Enter{ id: u64, sys: Entity, replay: bool, depth: usize },
+    Abort{ id: u64, sys: Entity, reason: VerifAbortReason },
+    Postpone{ id: u64, sys: Entity },
+    Start{ id: u64, sys: Entity },
+    Finish{ id: u64, sys: Entity, reinserted: bool },
+    Exit{ id: u64, sys: Entity },
+    Discard{ id: u64, sys: Entity },
+    /// `garbage_collect_entities` received an entity.
+    Gc{ entity: Entity, existed: bool },
+    PollBegin,
+    PollEnd,
+}
+
+//-------------------------------------------------------------------------------------------------------------------
+
+thread_local!
+{
+    static SINK: RefCell<Option<Box<dyn FnMut(VerifEvent)>>> = RefCell::new(None);
+    static NEXT_ID: Cell<u64> = Cell::new(1);
+    static CURRENT: Cell<u64> = Cell::new(0);
+}
+
+/// Installs the event sink of the current thread.
+pub fn verif_set_sink(sink: Box<dyn FnMut(VerifEvent)>)
+{
+    SINK.with(|s| *s.borrow_mut() = Some(sink));
+    NEXT_ID.with(|n| n.set(1));
+    CURRENT.with(|c| c.set(0));
+}
+
+/// Removes the event sink of the current thread.
+pub fn verif_clear_sink()
+{
+    SINK.with(|s| *s.borrow_mut() = None);
+}
+
+pub(crate) fn emit(event: VerifEvent)
+{
+    SINK.with(|s| {
+        // The sink never re-enters the framework, so a failed borrow can only mean a sink that emits; ignore.
+        let Ok(mut guard) = s.try_borrow_mut() else { return };
+        if let Some(sink) = guard.as_mut() { (sink)(event); }
+    });
+}
+
+/// Draws the id of a command that is about to be applied and makes it current.
+pub(crate) fn new_delivery() -> u64
+{
+    let id = NEXT_ID.with(|n| { let id = n.get(); n.set(id + 1); id });
+    CURRENT.with(|c| c.set(id));
+    id
+}
+
+/// The id of the command whose runner call comes next.
+pub(crate) fn current_delivery() -> u64
+{
+    CURRENT.with(|c| c.get())
+}
+
+pub(crate) fn set_current_delivery(id: u64)
+{
+    CURRENT.with(|c| c.set(id));
+}
+
+//-------------------------------------------------------------------------------------------------------------------
+
+/// Read-only view of the framework's bookkeeping.
+#[derive(Debug, Clone, Default, Eq, PartialEq)]
+pub struct VerifSnapshot
+{
+    /// `SyscommandCounter`.
+    pub counter: usize,
+    /// Number of postponed system commands.
+    pub buffered: usize,
+    /// `prepared.len()` of the system-event, entity-reaction, event and despawn trackers.
+    pub prepared: [usize; 4],
+    /// `currently_reacting` of the same four trackers.
+    pub reacting: [bool; 4],
+    /// System command entities whose callback is currently taken out.
+    pub storages_without_callback: Vec<Entity>,
+    /// Entities carrying a `DataEntityCounter` (broadcast / entity event data).
+    pub data_entities: usize,
+    /// Handles stored in `ReactCache` (type-wide tables and despawn table).
+    pub cache_handles: usize,
+    /// Handles stored in `EntityReactors` components.
+    pub entity_handles: usize,
+}
+
+/// Takes a [`VerifSnapshot`]. Returns `None` if `ReactPlugin` is missing.
+pub fn verif_snapshot(world: &mut World) -> Option<VerifSnapshot>
+{
+    let counter = **world.get_resource::<SyscommandCounter>()?;
+    let buffered = world.get_resource::<CobwebCommandQueue<BufferedSyscommand>>()?.verif_len();
+    let se = world.get_resource::<SystemEventAccessTracker>()?.verif_state();
+    let er = world.get_resource::<EntityReactionAccessTracker>()?.verif_state();
+    let ev = world.get_resource::<EventAccessTracker>()?.verif_state();
+    let de = world.get_resource::<DespawnAccessTracker>()?.verif_state();
+    let cache_handles = world.get_resource::<ReactCache>()?.verif_num_handles(None);
+
+    let mut storages_without_callback = Vec::new();
+    let mut q = world.query::<(Entity, &SystemCommandStorage)>();
+    for (entity, storage) in q.iter(world)
+    {
+        if !storage.verif_has_callback() { storages_without_callback.push(entity); }
+    }
+    storages_without_callback.sort();
+
+    let mut q = world.query::<&DataEntityCounter>();
+    let data_entities = q.iter(world).count();
+
+    let mut q = world.query::<&EntityReactors>();
+    let entity_handles = q.iter(world).map(|r| r.iter_reactors().count()).sum();
+
+    Some(VerifSnapshot{
+        counter,
+        buffered,
+        prepared: [se.0, er.0, ev.0, de.0],
+        reacting: [se.1, er.1, ev.1, de.1],
+        storages_without_callback,
+        data_entities,
+        cache_handles,
+        entity_handles,
+    })
+}
+
+/// Counts the trigger registrations that currently name `sys` (type-wide, despawn and entity-scoped tables).
+pub fn verif_registrations_of(world: &mut World, sys: SystemCommand) -> usize
+{
+    let in_cache = world.get_resource::<ReactCache>().map(|c| c.verif_num_handles(Some(sys))).unwrap_or(0);
+    let mut q = world.query::<&EntityReactors>();
+    let on_entities: usize = q.iter(world).map(|r| r.iter_reactors().filter(|s| *s == sys).count()).sum();
+    in_cache + on_entities
+}
+
+/// Returns `true` if `entity` carries local data of the entity world reactor `T`.
+pub fn verif_has_entity_world_local<T: EntityWorldReactor>(world: &World, entity: Entity) -> bool
+{
+    world.get::<EntityWorldLocal<T>>(entity).is_some()
+}
+
+/// Returns `true` if `entity` is a system command (has a callback slot), and whether the callback is present.
+pub fn verif_system_command_state(world: &World, entity: Entity) -> Option<bool>
+{
+    world.get::<SystemCommandStorage>(entity).map(|s| s.verif_has_callback())
+}
+
+//-------------------------------------------------------------------------------------------------------------------
